@@ -612,7 +612,7 @@ class AsyncDispatcher(BaseDispatcher, Generic[ContextType]):
                         responses = await asyncio.gather(*(self._request_handler(req, context) for req in request))
                     else:
                         responses = [await self._request_handler(req, context) for req in request]
-                    response = self._batch_response(*(resp for resp in responses if resp))
+                    response = self._batch_response(*(resp for resp in responses if not isinstance(resp, UnsetType)))
                     if len(response) == 0:
                         # a batch consisting of notifications only is not answered
                         response = UNSET
